@@ -125,14 +125,15 @@ def cache_validity(ctx, rep, R):
            "only library_folders may be ignored when comparing options; found %s" % (excl,))
     # mtime
     loads = [x for x in cfg.nodes if x.kind in ("stmt", "with") and any(call_name(c) == "pickle.load" for c in (calls(x.ast) if x.kind == "stmt" else []))]
-    mt = [x for x in cfg.nodes if x.kind == "test" and isinstance(x.ast, ast.Compare) and "getmtime" in norm(x.ast)]
+    cache_vars = {s.targets[0].id for s in walk_local(fn) if isinstance(s, ast.Assign) and isinstance(s.targets[0], ast.Name)
+                  and "getmtime(db_file)" in norm(s.value)}
+    mt = [x for x in cfg.nodes if x.kind == "test" and isinstance(x.ast, ast.Compare) and "getmtime" in norm(_resolved(x.ast, fn, cache_vars))]
     gate = [x for x in cfg.nodes if x.kind == "test" and subscript_key(x.ast) == "mtime_check"]
     ok_dir = False
     for x in mt:
         t = x.ast
-        l, r, o = norm(t.left), norm(t.comparators[0]), t.ops[0]
-        cache_vars = {s.targets[0].id for s in walk_local(fn) if isinstance(s, ast.Assign) and isinstance(s.targets[0], ast.Name)
-                      and "getmtime(db_file)" in norm(s.value)}
+        rt = _resolved(t, fn, cache_vars)
+        l, r, o = norm(rt.left), norm(rt.comparators[0]), t.ops[0]
         if isinstance(o, (ast.Gt, ast.GtE)) and "getmtime(" in l and r in cache_vars:
             ok_dir = True
         if isinstance(o, (ast.Lt, ast.LtE)) and "getmtime(" in r and l in cache_vars:
@@ -145,24 +146,46 @@ def cache_validity(ctx, rep, R):
     rep.ob(R, site, "mtime scan before unpickling", ok and bool(mt), "the staleness scan (under mtime_check) must come before the cache is read")
 
 
+def _resolved(e, fn, keep=()):
+    """e with explanatory one-shot locals (`mtime = os.path.getmtime(path)`) replaced by their values"""
+    from ..pyutil import inlined
+    return inlined(e, fn.body, keep=set(keep))
+
+
 @SPEC.rule("R20.2", "same file set: the staleness scan of load_model and the compile scan of _compile_model use the same folder list, os.walk arguments and file pattern")
 def r20_2(ctx, rep):
     R = "R20.2"
 
     def scan(fn):
+        # compared by role, not by the names of the loop variables: the folder list with locals resolved, the walk call with the folder loop's
+        # variable as `@folder`, the filter call with the walk's file list as `@files`
+        from ..pyutil import ast_copy
         folder = walk = pat = None
+
+        def renamed(e, mapping):
+            e = ast_copy(e)
+            for x in ast.walk(e):
+                if isinstance(x, ast.Name) and x.id in mapping:
+                    x.id = mapping[x.id]
+            return norm(e)
+
+        files_var = None
         for lp in ast.walk(fn):
             if isinstance(lp, ast.For):
                 it = norm(lp.iter)
                 if it.startswith("os.walk("):
-                    walk = it
                     outer = getattr(lp, "_parent", None)
                     while outer is not None and not isinstance(outer, ast.For):
                         outer = getattr(outer, "_parent", None)
+                    fvar = outer.target.id if outer is not None and isinstance(outer.target, ast.Name) else None
+                    walk = renamed(lp.iter, {fvar: "@folder"} if fvar else {})
                     if outer is not None:
-                        folder = norm(outer.iter).replace("compiler_options", "OPT")
-                elif it.startswith("fnmatch.filter("):
-                    pat = it
+                        folder = norm(_resolved(outer.iter, fn)).replace("compiler_options", "OPT")
+                    if isinstance(lp.target, ast.Tuple) and len(lp.target.elts) == 3 and isinstance(lp.target.elts[2], ast.Name):
+                        files_var = lp.target.elts[2].id
+        for lp in ast.walk(fn):
+            if isinstance(lp, ast.For) and norm(lp.iter).startswith("fnmatch.filter("):
+                pat = renamed(lp.iter, {files_var: "@files"} if files_var else {})
         return folder, walk, pat
 
     a = scan(api_fn(ctx, "load_model", R))
@@ -224,7 +247,16 @@ def r20_4(ctx, rep):
            "options must be normalised before load_model compares them with the stored ones (else every load of a pickle cache misses or a stale one matches)")
     sv = api_fn(ctx, "save_model", R)
     t = [norm(s) for s in ast.walk(sv) if isinstance(s, ast.Assign)]
-    rep.ob(R, API + ":save_model", "version and options stored", "db['version'] = __version__" in t and "db['options'] = compiler_options" in t
+    # ... as item stores, or as entries of the display the mapping is written as
+    stored = {}
+    for s_ in ast.walk(sv):
+        if isinstance(s_, ast.Assign) and isinstance(s_.targets[0], ast.Subscript) and is_name(s_.targets[0].value, "db") and isinstance(s_.targets[0].slice, ast.Constant):
+            stored[s_.targets[0].slice.value] = norm(s_.value)
+        if isinstance(s_, ast.Assign) and is_name(s_.targets[0], "db") and isinstance(s_.value, ast.Dict):
+            for kk, vv in zip(s_.value.keys, s_.value.values):
+                if isinstance(kk, ast.Constant):
+                    stored[kk.value] = norm(vv)
+    rep.ob(R, API + ":save_model", "version and options stored", stored.get("version") == "__version__" and stored.get("options") == "compiler_options"
            and any(x.startswith("compiler_options = _merge_default_options(compiler_options)") for x in t),
            "the cache must record pymoca's version and the merged options it was compiled with")
     ld = api_fn(ctx, "load_model", R)
@@ -284,15 +316,21 @@ def r20_8(ctx, rep):
     site = API + ":load_model"
     cfg = CFG(fn, R)
 
+    cache_vars = {s_.targets[0].id for s_ in walk_local(fn) if isinstance(s_, ast.Assign) and isinstance(s_.targets[0], ast.Name)
+                  and "getmtime(db_file)" in norm(s_.value)}
+
+    def is_mtime_test(e):
+        return isinstance(e, ast.Compare) and "getmtime" in norm(_resolved(e, fn, cache_vars))
+
     def has_mtime_test(lp):
-        return any(isinstance(x, ast.Compare) and "getmtime" in norm(x) for st in lp.body for x in ast.walk(st))
+        return any(is_mtime_test(x) for st in lp.body for x in ast.walk(st))
 
     inner = [lp for lp in walk_local(fn) if isinstance(lp, ast.For) and has_mtime_test(lp)
              and not any(isinstance(x, ast.For) and has_mtime_test(x) for st in lp.body for x in ast.walk(st))]
     if len(inner) != 1:
         raise MechanismMissing(R, "the loop of load_model that compares modification times was not found")
     lp = inner[0]
-    res = loop_nest_skips(cfg, fn, lp, lambda x: x.kind == "test" and isinstance(x.ast, ast.Compare) and "getmtime" in norm(x.ast))
+    res = loop_nest_skips(cfg, fn, lp, lambda x: x.kind == "test" and is_mtime_test(x.ast))
     rep.ob(R, site, "every source file reaches the modification-time comparison", res is None,
            "an iteration of `for %s in %s` can end without the file's (or the files below it's) modification time being compared with the cache's: "
            "an edit of such a file goes unnoticed and the stale cache is served" % ((norm(res[0].target)[:30], norm(res[0].iter)[:50]) if res else ("", "")),
